@@ -1038,6 +1038,143 @@ fn complete_history(cs: &mut Cs, it: &mut Interp, st: &mut Stats, single: Option
     Ok(())
 }
 
+/// Complete histories in which functions and blocks are parked (deselected) and resumed later
+/// through select_function / select_block: still "each begun block ended by a terminator call,
+/// each begun function ended", but not in one go.
+fn parked_history(cs: &mut Cs, it: &mut Interp, st: &mut Stats) -> R {
+    struct F {
+        params_left: usize,
+        blocks_left: usize,
+        blocks_begun: usize,
+        open: Option<usize>,
+        insts_left: usize,
+        done: bool,
+        /// typed values defined inside this function: usable as OpSwitch selectors only here
+        /// (elsewhere the use could precede the definition in the assembled order, and the
+        /// literal width the arguments must have is defined by that order)
+        typed: Vec<(u32, usize)>,
+    }
+    let p = pools();
+    it.env.conforming = true;
+    if cs.below(3) == 0 {
+        let v = [(1u8, 0u8), (1, 3), (1, 5), (1, 6), (1, 2)][cs.below(5)];
+        it.set_version(v.0, v.1)?;
+    }
+    for _ in 0..4 {
+        it.alloc_id()?;
+    }
+    for name in ["type_int", "type_float", "type_int"] {
+        if cs.bool() {
+            it.call(cs, method(name))?;
+        }
+    }
+    let nf = 1 + cs.below(3);
+    let mut fs: Vec<F> = vec![];
+    let mut steps = 0usize;
+    let mut parks = 0usize;
+    let mut resumed_nonlast = 0usize;
+    loop {
+        steps += 1;
+        if steps > 400 {
+            return Err(fail("harness", "parked-history-does-not-terminate", it.render()));
+        }
+        let calm = steps > 120; // no more parking: run to completion
+        let (sf, sb) = it.selection();
+        match sf {
+            None => {
+                let unfinished: Vec<usize> = fs.iter().enumerate().filter(|(_, f)| !f.done).map(|(i, _)| i).collect();
+                if fs.len() < nf && (unfinished.is_empty() || cs.bool()) {
+                    it.call(cs, method("begin_function"))?;
+                    fs.push(F { params_left: cs.below(3), blocks_left: cs.below(4), blocks_begun: 0, open: None, insts_left: 0, done: false, typed: vec![] });
+                } else if !unfinished.is_empty() {
+                    let i = unfinished[cs.below(unfinished.len())];
+                    if i + 1 < fs.len() {
+                        resumed_nonlast += 1;
+                    }
+                    it.select_function(Some(i))?;
+                    it.env.typed_values = std::mem::take(&mut fs[i].typed);
+                    if let Some(b) = fs[i].open {
+                        it.select_block(Some(b))?;
+                    }
+                } else {
+                    break;
+                }
+                if cs.below(6) == 0 {
+                    let mm = match cs.below(3) {
+                        0 => pick(cs, &p.types),
+                        _ => pick(cs, &p.module_level),
+                    };
+                    it.call(cs, mm)?;
+                }
+            }
+            Some(f) => {
+                if !calm && cs.below(4) == 0 {
+                    parks += 1;
+                    if sb.is_some() && cs.bool() {
+                        it.select_block(None)?;
+                    } else {
+                        it.select_function(None)?;
+                        fs[f].typed = std::mem::take(&mut it.env.typed_values);
+                    }
+                    continue;
+                }
+                let fx = &mut fs[f];
+                match sb {
+                    Some(_) => {
+                        if fx.insts_left > 0 {
+                            fx.insts_left -= 1;
+                            let mm = match cs.below(8) {
+                                0 => pick(cs, &p.block_or_global),
+                                1 | 2 => pick(cs, &p.block),
+                                _ => pick(cs, &p.block_append),
+                            };
+                            it.call(cs, mm)?;
+                        } else {
+                            let mm = pick(cs, &p.term_append);
+                            it.call(cs, mm)?;
+                            if it.selection().1.is_none() {
+                                fx.open = None;
+                                fx.blocks_left -= 1;
+                            }
+                        }
+                    }
+                    None => {
+                        if let Some(b) = fx.open {
+                            it.select_block(Some(b))?;
+                        } else if fx.params_left > 0 && (fx.blocks_begun == 0 || cs.bool()) {
+                            fx.params_left -= 1;
+                            it.call(cs, method("function_parameter"))?;
+                        } else if fx.blocks_left > 0 {
+                            it.call(cs, method("begin_block"))?;
+                            if it.selection().1.is_some() {
+                                fx.open = Some(fx.blocks_begun);
+                                fx.blocks_begun += 1;
+                                fx.insts_left = cs.below(4);
+                            }
+                        } else {
+                            it.call(cs, method("end_function"))?;
+                            fx.done = true;
+                            it.env.typed_values.clear();
+                        }
+                    }
+                }
+            }
+        }
+    }
+    st.add("parks", parks as u64);
+    if resumed_nonlast > 0 {
+        st.count("resumed_a_function_that_is_not_the_last");
+    }
+    Ok(())
+}
+
+fn sub_c06_parked(input: &[u8], st: &mut Stats) -> R {
+    let mut cs = Cs::new(input);
+    let mut it = Interp::new();
+    parked_history(&mut cs, &mut it, st)?;
+    roundtrip(it, st)
+}
+
 fn roundtrip(it: Interp, st: &mut Stats) -> R {
     let (m, it) = it.finish()?;
     let wrap = |f: Fail| f.with_decoded(it.render());
@@ -1149,6 +1286,7 @@ pub const C06_SUBS: &[Sub] = &[
     Sub { name: "fixed-histories", f: sub_c06_fixed },
     Sub { name: "method-sweep", f: sub_c06_method_sweep },
     Sub { name: "histories", f: sub_c06_histories },
+    Sub { name: "parked-histories", f: sub_c06_parked },
 ];
 
 pub fn c06_run(ctx: &Ctx) {
@@ -1168,13 +1306,14 @@ pub fn c06_run(ctx: &Ctx) {
     drive_enum(ctx, &C06_SUBS[0], 2);
     drive_enum(ctx, &C06_SUBS[1], pools().emitting.len() as u64 * 3);
     drive_random(ctx, &C06_SUBS[2], ctx.n(20_000, 10_000_000), 2500);
+    drive_random(ctx, &C06_SUBS[3], ctx.n(8_000, 4_000_000), 2500);
 }
 
 pub fn c06_finish(ctx: &Ctx) -> i32 {
     crate::engine::finish(
         ctx,
         Finish {
-            rule: "cases: (a) per-method sweep: every instruction-emitting Builder method (1153, call sites generated from the working tree by build.rs) x3 in the smallest complete history; (b) complete histories: optional set_version, ids from b.id(), int/float types, module-level/type/global calls, 0-3 functions x 0-3 blocks of block instructions (append and insert_*), each block ended by a terminator method, each function ended, module-level calls interleaved anywhere; arguments grammar-conforming (enumerant parameters via additional_params, optionals as trailing run, typed literals of the declared width). Oracle: per call, the emitted instruction (found where the model R4 places it) equals the method's opcode + arguments in grammar order; at the end load_words(module().assemble()) is Ok and field-wise equal to the built module; version = the one set (default 1.6); bound = next id > every id used. non-trivial = history with >= 1 function, >= 2 blocks, >= 6 calls (sweep: the swept method was called); distinct = hash of the assembled words.",
+            rule: "cases: (a) per-method sweep: every instruction-emitting Builder method (1153, call sites generated from the working tree by build.rs) x3 in the smallest complete history; (b) complete histories: optional set_version, ids from b.id(), int/float types, module-level/type/global calls, 0-3 functions x 0-3 blocks of block instructions (append and insert_*), each block ended by a terminator method, each function ended, module-level calls interleaved anywhere; arguments grammar-conforming (enumerant parameters via additional_params, optionals as trailing run, typed literals of the declared width). (c) parked histories: 1-3 functions built interleaved - a function or block is deselected (select_function(None) / select_block(None)) at random points, other functions are begun or resumed, and it is later re-selected (select_function(Some(i)) + select_block(Some(j))) and completed. Oracle: per call, the emitted instruction (found where the model R4 places it) equals the method's opcode + arguments in grammar order; at the end load_words(module().assemble()) is Ok and field-wise equal to the built module; version = the one set (default 1.6); bound = next id > every id used. non-trivial = history with >= 1 function, >= 2 blocks, >= 6 calls (sweep: the swept method was called); distinct = hash of the assembled words.",
             assumptions: vec![
                 "excluded: begin_block_no_label (label-less block cannot be expressed in a binary); insert_into_block / insert_types_global_values with caller-made instructions; spec_constant_op only with opcodes whose embedded operand list can be empty; execution_mode / execution_mode_id only with modes whose parameters fit the [u32] signature; with several parameterised masks in one call only the last may carry parameters (single additional_params argument)".into(),
                 "histories whose assembled words the reference parser R1 does not accept are generator errors and skipped (counted as skipped_arguments_not_conforming)".into(),
